@@ -195,8 +195,22 @@ func c17Run(raw []byte) (*Line, error) {
 		for _, lev := range c.Levels {
 			var n int
 			var t []float64
-			pan, _ := catch(func() { n = count(lev); t = at(lev) })
-			l.I(lev).I(n).I(st(pan)).Fs(t)
+			// TicksAtLevel is not called where CountTicks reports more than 1e5 ticks (far below
+			// the natural level a tick list of 1e19 elements cannot exist): status 3
+			skipped := false
+			pan, _ := catch(func() {
+				n = count(lev)
+				if c.K == 1 && (n > 100000 || n < 0) {
+					skipped = true
+					return
+				}
+				t = at(lev)
+			})
+			status := st(pan)
+			if skipped && !pan {
+				status = 3
+			}
+			l.I(lev).I(n).I(status).Fs(t)
 		}
 		l.I(on.Max).I(on.MinLevel).I(on.MaxLevel)
 		var a, b float64
@@ -417,7 +431,7 @@ func c17LinearCase(rng *rand.Rand) c17Case {
 		c.Base = []int{1, -2}[rng.Intn(2)]
 		c.Levels = nil
 	}
-	if rng.Intn(25) == 0 && c.Base != 1 && c.Base >= 0 {
+	if rng.Intn(40) == 0 && c.Base != 1 && c.Base >= 0 {
 		// level limits (and per-level observations) around the level where the spacing eb^(l/2)
 		// (x5) overflows float64 (findings hI-c17-1, hI-c17-2)
 		ov := 2 * int(math.Ceil(1024*math.Ln2/math.Log(float64(eb))))
@@ -431,6 +445,22 @@ func c17LinearCase(rng *rand.Rand) c17Case {
 		}
 		if c.Levels != nil {
 			c.Levels = []int{ov - 3, ov - 2, ov - 1, ov, ov + 1, ov + 4}
+		}
+	}
+	if c.NO == nil && c.O.MinLevel < 400 && rng.Intn(40) == 0 && c.Base != 1 && c.Base >= 0 {
+		// level limits (and CountTicks observations) far BELOW the natural level, where the number
+		// of ticks passes 2^53 (float-rounded) and 2^63 (CountTicks saturates at maxInt): finding hI-c17-3
+		d0 := 126 / math.Log2(float64(eb)) // levels below the natural one at which the count reaches 2^63
+		c.O.MaxLevel = nat - int(d0*(0.7+0.9*rng.Float64()))
+		c.O.MinLevel = c.O.MaxLevel - rng.Intn(3)
+		if c.O.MinLevel == 0 && c.O.MaxLevel == 0 {
+			c.O.MinLevel = -1
+		}
+		if c.Levels != nil {
+			c.Levels = nil
+			for _, f := range []float64{1.4, 1.15, 1.02, 0.98, 0.85, 0.5, 0.2} {
+				c.Levels = append(c.Levels, nat-int(d0*f))
+			}
 		}
 	}
 	c.Min, c.Max = F64(mn), F64(mx)
@@ -517,7 +547,7 @@ func c17LogCase(rng *rand.Rand) c17Case {
 	} else {
 		c.Levels = []int{-1, 0, 1, 2, 3}
 	}
-	if rng.Intn(20) == 0 {
+	if rng.Intn(30) == 0 {
 		// level limits (and per-level observations) around the level where the effective base
 		// overflows float64 (findings hI-c17-1, hI-c17-2)
 		ov := int(math.Ceil(math.Log2(1024 * math.Ln2 / math.Log(float64(b)))))
